@@ -333,6 +333,13 @@ def run_check(engine_name, tier, verif_seed, budget_override=None, runs_override
         cov["distinct_" + k] = len(v)
       else:
         cov[k] = v
+    if "sim_cycles" in cov:
+      cov["simulated_time"] = {"unit": "simulated clock cycles (sim_tick calls; there is no other clock in pymtl3)",
+                               "total": cov["sim_cycles"]}
+    for key, text in (("distinct_schedules", "distinct digests of the block-invocation / schedule order observed"),
+                      ("distinct_ff_orders", "distinct orders of the update_ff blocks")):
+      if key in cov:
+        cov.setdefault("interleavings_measure", {})[key] = text
     zero = [k for k, v in cov.get("probes", {}).items() if v == 0]
     if zero:
       cov["probe_warnings"] = zero
